@@ -427,4 +427,56 @@ def emit (ver : Int) : Call → Except PyErr (List Packet)
     let d ← packNums (parseFmt! lopoMode_fmt0) [k Lopo.LPP_TYPE_MODE, mode]
     shortLpp id d
 
+/-! ### the long-lived objects
+
+`Commander`, `HighLevelCommander`, `Localization`, `Extpos`, `PlatformService` and `LoPoAnchor` are created once per
+`Crazyflie` object and live across connections.  The only attributes their methods write (pinned: Gen `stores_*`) are
+`Commander._x_mode` (by `set_client_xmode`) and `PlatformService._protocolVersion` (reset to -1 by
+`fetch_platform_informations` at the start of every connection, set by the handshake callbacks).  Every emitting method
+reads both AT CALL TIME (`self._x_mode`, `self._cf.platform.get_protocol_version()`), nothing is cached. -/
+
+structure Objs where
+  xmode : Bool          -- Commander._x_mode
+  version : Int         -- PlatformService._protocolVersion
+  deriving DecidableEq, Repr, Inhabited
+
+/-- `Commander.__init__`: `_x_mode = False`; `PlatformService.__init__`: `_protocolVersion = -1` -/
+def Objs.init : Objs := { xmode := false, version := -1 }
+
+/-- one step in the life of the objects -/
+inductive Ev
+  | setXmode (enabled : Bool)      -- Commander.set_client_xmode(enabled)
+  | negotiated (version : Int)     -- the platform service learns the protocol version of the (new) connection; -1 = handshake started / not supported
+  | call (c : Call)                -- an emitting API call (the x-mode component of `.setpoint` is supplied by the object state)
+  deriving DecidableEq, Repr, Inhabited
+
+/-- the call as the object executes it: `send_setpoint` consults `self._x_mode` -/
+def Call.withXmode (xm : Bool) : Call → Call
+  | .setpoint _ roll pitch mixRoll mixPitch yawrate thrust => .setpoint xm roll pitch mixRoll mixPitch yawrate thrust
+  | c => c
+
+/-- what one call event did: the protocol version in force, the call as executed, and its outcome -/
+structure Done where
+  version : Int
+  call : Call
+  result : Except PyErr (List Packet)
+  deriving DecidableEq, Repr, Inhabited
+
+def step (s : Objs) : Ev → Objs × Option Done
+  | .setXmode b => ({ s with xmode := b }, none)
+  | .negotiated v => ({ s with version := v }, none)
+  | .call c =>
+    let c' := c.withXmode s.xmode
+    (s, some { version := s.version, call := c', result := emit s.version c' })
+
+/-- the history of an object set: outcomes of the call events, in order -/
+def run : Objs → List Ev → List Done
+  | _, [] => []
+  | s, e :: es =>
+    match step s e with
+    | (s', some d) => d :: run s' es
+    | (s', none) => run s' es
+
+def stateAfter (s : Objs) (evs : List Ev) : Objs := evs.foldl (fun s e => (step s e).1) s
+
 end CfVerif.C08
